@@ -70,8 +70,10 @@ pub fn run_one(
             if profile.name == "ADM" && ctx.rng.chance(1, 3) {
                 crate::actors_adm::drill_kill_bank(&mut sim, &mut ctx);
             }
+            let integ = if profile.name == "INTEG" { crate::actors_integ::setup(&mut sim, &mut ctx) } else { None };
             for _ in 0..steps {
-                match profile.name {
+                match (&integ, profile.name) {
+                    (Some(st), _) if ctx.rng.chance(1, 2) => crate::actors_integ::step(&mut sim, &mut ctx, st),
                     _ => actors::step_mkt(&mut sim, &mut ctx),
                 }
                 // move known-finding hits aside so the run continues
